@@ -84,6 +84,15 @@ CHECKS = {
    note=""),
 }
 
+CHECKS["C06"] = dict(engine=E1, cat="exploration", ref="DESIGN.md §3 C06, §10",
+   technique="enumeration of instances x a fixed list of controlled hash-seed vectors x fresh solver instances, plus cross-process batch digests",
+   text="Every instance of F1 (all roots) / F3 (<= 1/2 decorations) / the dead-end family (<= 2/3 exclusion, unknown, empty-requirement, lock decorations) / a slice of F4 is solved under K fixed ahash seed vectors (K = 4 quick, 16 thorough; seed control through ahash's set_random_source and --cfg fuzzing) x 2 fresh solvers, with hints as-is and All; the solution vector (order included) or the conflict message must be identical; the whole batch is digested again in separate processes with uncontrolled seeds. Exploration, not proof: the seed space is 2^256 and only a fixed list is enumerated.",
+   note="std's SipHash keys in conflict.rs vary per instance but are not controlled; a seed-control probe must realise >= 2 iteration orders or the run exits 2.")
+CHECKS["C17"] = dict(engine="E5 C++/Rust differential driver", cat="model_checking", ref="DESIGN.md §3 C17, §10",
+   technique="universe enumeration pushed through the C++ bridge and the Rust API in one ASan/UBSan process with a layout-checking allocator; exhaustive container-operation sequences vs std::vector",
+   text="Every universe of F3 (<= 1/2 decorations), a slice of F1 and of F5 that the C++ interface can express is solved through resolvo::solve with a table-driven C++ DependencyProvider (5 ways of building the returned vectors, with and without a pre-filled result) and through the Rust API: identical solution vector / error text, no Rust-side block survives a solve, every block is freed with the layout it was allocated with, ASan/UBSan/LSan silent; every sequence (depth 4/5) of container operations on Vector<SolvableId>/Vector<String> with 2 handles vs std::vector, String operations vs std::string, struct layouts compared; a reduced pass runs under valgrind.",
+   note="Unknown dependencies and missing packages cannot be expressed through the C++ interface; the Rust side of Vector is only reachable through the bridge.")
+
 NOT_APPLICABLE = {
 }
 
@@ -115,10 +124,11 @@ def main():
             "add_only": True,
         },
         "engines": [
-            {"name": E1, "path": "harness/src/{universe,families,oracle,run,e1,e15,plans}.rs", "serves_properties": ["C01","C02","C03","C04","C05","C07","C08","C09","C14","C15"], "kind_free_text": "exhaustive enumeration of finite universe families, executed on the real solver"},
+            {"name": E1, "path": "harness/src/{universe,families,oracle,run,e1,e15,plans}.rs", "serves_properties": ["C01","C02","C03","C04","C05","C06","C07","C08","C09","C14","C15"], "kind_free_text": "exhaustive enumeration of finite universe families, executed on the real solver"},
             {"name": "E2 completion-order explorer", "path": "harness/src/{sched,e2}.rs", "serves_properties": ["C10","C11","C07"], "kind_free_text": "stateless DFS over completion orders under a controlled single-threaded executor"},
             {"name": "E3 fault-point enumerator", "path": "harness/src/e2.rs", "serves_properties": ["C12","C13"], "kind_free_text": "cancellation at every poll index"},
             {"name": "E4 operation-sequence explorer", "path": "harness/src/{e2,e4,e16}.rs", "serves_properties": ["C13","C16","C18","C19","C20"], "kind_free_text": "BFS / complete enumeration of API call histories against reference models"},
+            {"name": "E5 C++/Rust differential driver", "path": "cpp/{driver.cpp,rt/src/lib.rs,run.py}", "serves_properties": ["C17"], "kind_free_text": "one process: C++ side under ASan/UBSan, Rust side with a layout-checking global allocator; reduced pass under valgrind"},
         ],
         "checks": checks,
         "not_applicable": na,
